@@ -391,7 +391,13 @@ func (staticEngine) Run(ops []string) (ans []string, oracle []string) {
 					opts = append(opts, rux.StrictLastSlash)
 				}
 				if n := (flags >> 3) & 3; n > 0 {
-					opts = append(opts, rux.CachingWithNum(uint16(n)))
+					// one option value per capacity for every router of the process (a shared `opts` slice)
+					opt, ok := sharedCachingOpts[n]
+					if !ok {
+						opt = rux.CachingWithNum(uint16(n))
+						sharedCachingOpts[n] = opt
+					}
+					opts = append(opts, opt)
 				}
 				r := rux.New(opts...)
 				if add {
